@@ -12,7 +12,7 @@ to a row-wise map.  A row-wise map is then equivariant under batch permutations 
 
 **Limits** (external audit): theorems here cover the boolean-mask gather / scatter, the image parameter layout and the executed
 coupling / autoregressive / CDF passes.  Distributions and flows (`log_prob` of a batch vs rows), the linear family, the 1×1 convolution and
-the normalisation layers in evaluation mode are in `Properties/C12R.lean`.  Not covered by a theorem (correspondence and
+the normalisation layers in evaluation mode are in `Properties/C12R.lean`; `Flow.log_prob` over the executed passes, errors included, in `Properties/C12F.lean`.  Not covered by a theorem (correspondence and
 row-vs-batch oracle only): conditioner networks themselves (their row-wise behaviour is the hypothesis `hp`, compared numerically).  Row independence of the executed
 passes is stated for the `out` / `ld` arrays; a batch in which ONE row is out of domain is rejected as a whole by the code
 (`err`), and `Properties/C12E.lean` relates the two: the batch run has `err = none` iff every row run alone has.  `rowwise_*` are facts about `List.map`.
